@@ -4,7 +4,7 @@ import itertools
 import json
 
 from harness import core, project as P
-from harness.common import pmap, build, via
+from harness.common import pmap, build, via4, canonical_in
 from harness.drive_quantise import random_score
 
 SIGPLANS = [[], [P.ts(0, 4, 4)], [P.ts(0, 3, 4)], [P.ts(0, 4, 4), P.ts(6, 3, 4)], [P.ks(0, "D")], [P.ts(0, 4, 4), P.ks(4, "G")],
@@ -15,8 +15,8 @@ def execute(case):
     idx, fam = case
     line = {"inputs": [], "outAbs": [], "outRel": [], "orders": [], "raised": "", "case": {"family": fam}}
     try:
-        fresh = lambda: [build(sc, via(idx + i)) for i, sc in enumerate(fam)]
-        line["inputs"] = [P.raw_abs(s) for s in fresh()]
+        fresh = lambda: [build(sc, via4(idx + i)) for i, sc in enumerate(fam)]
+        line["inputs"] = [canonical_in(s, sc) for s, sc in zip(fresh(), fam)]
         perms = list(itertools.permutations(range(len(fam))))
         for k, pi in enumerate(perms):
             seqs = fresh()
